@@ -6,6 +6,9 @@ import RTA.Lemmas.ExecRefine
 import RTA.Lemmas.ExecRefineChain
 import RTA.Lemmas.ExecRunMeets
 import RTA.Lemmas.ExecEndToEnd
+import RTA.Lemmas.ExecChainEndToEnd
+import RTA.Lemmas.ExecChainExample
+import RTA.Lemmas.ExecEndToEndX
 import RTA.Spec.Ros2Exec
 /-! # C04 — the ECRTS'19 ROS 2 analyses are safe under reservation supply
 
@@ -383,6 +386,103 @@ theorem polling_point_safe_end_to_end (cbs : List Exec.Cb) (sigma : ℕ → Bool
     (n : ℕ) :
     ∀ o ∈ Exec.run cbs (fun _ => none) ((List.range n).map sigma) rels, o.1 = i → o.2.2 ≤ o.2.1 + R :=
   Exec.pollingPoint_exec_sound cbs sigma rels H i hi hidx hfin hcb sup hs hsbf arrs hlen hwf hrel limit R hR n
+
+/-- **C04, processing chain, end to end**: every hypothesis is on the INPUTS of the run (callback
+table, linear chain `ch = [c₀, …, c_k]` of polled callbacks of which only `c₀` is released
+externally, supply process, release pattern within the curves: `a` for the chain's source,
+`arrs` for the callbacks outside the chain), the conclusion on the completions reported by the
+executable `Exec.run`: the `m`-th completion of the last callback is within `R` of the `m`-th
+release of the source (`Exec.relTimes`, `Exec.completionsOf`).  `rta_processing_chain` is given
+the last callback's WCET, the total WCET of the callbacks before it, and all callbacks outside
+the chain as interference. -/
+theorem chain_safe_end_to_end (cbs : List Exec.Cb) (ch : List ℕ) (sigma : ℕ → Bool) (rels : ℕ → List ℕ)
+    (H l : ℕ)
+    (hch : ch.Nodup) (hne : 2 ≤ ch.length) (hlast : ch.getLast? = some l)
+    (hmem : ∀ i ∈ ch, i < cbs.length ∧ (cbs.getD i default).isTimer = false)
+    (hidx : ∀ t, ∀ i ∈ rels t, i < cbs.length)
+    (hext : ∀ t, ∀ i ∈ rels t, i ∉ ch.tail)
+    (hfin : ∀ t, H ≤ t → rels t = [])
+    (hcb : ∀ c ∈ cbs, 1 ≤ c.cost)
+    (sup : Supply) (hs : sup.WF) (hsbf : ∀ t d, sup.sbf d ≤ service sigma t d)
+    (a : Arr) (hwf : a.WF) (hex : a.Exact)
+    (hsrc : ∀ t d, Exec.relCount rels (ch.headD 0) t d ≤ a.N d)
+    (arrs : List Arr) (hlen : arrs.length = cbs.length) (hwfo : ∀ b ∈ arrs, b.WF ∧ b.Exact)
+    (hrel : ∀ k, k < cbs.length → k ∉ ch → ∀ t d, Exec.relCount rels k t d ≤ (arrs.getD k default).N d)
+    (limit R : ℕ)
+    (hR : rosChain sup
+      (.rbf a (.scalar (cbs.getD l default).cost))
+      (.rbf a (.scalar ((ch.dropLast.map fun i => (cbs.getD i default).cost).sum)))
+      (.rbf a (.scalar ((cbs.getD l default).cost + (ch.dropLast.map fun i => (cbs.getD i default).cost).sum)))
+      (.agg (((List.range cbs.length).filter fun k => decide (k ∉ ch)).map
+        fun k => .rbf (arrs.getD k default) (.scalar (cbs.getD k default).cost))) limit = .ok R)
+    (n m : ℕ)
+    (hm : m < (Exec.completionsOf (Exec.run cbs (Exec.chainFn ch) ((List.range n).map sigma) rels) l).length) :
+    (Exec.completionsOf (Exec.run cbs (Exec.chainFn ch) ((List.range n).map sigma) rels) l).getD m 0 ≤
+      (Exec.relTimes rels H (ch.headD 0)).getD m 0 + R :=
+  Exec.chain_exec_sound cbs ch sigma rels H l hch hne hlast hmem hidx hext hfin hcb sup hs hsbf a hwf hex hsrc
+    arrs hlen hwfo hrel limit R hR n m hm
+
+/-- non-vacuity of `chain_safe_end_to_end`: a timer and a chain of two polled callbacks on a
+dedicated processor, periodic releases: every hypothesis holds, `rta_processing_chain` returns
+`Ok(6)`, the run reports the completions 6 and 26 of the chain for the source releases 0 and
+20 — the bound is attained -/
+theorem chain_safe_end_to_end_nonvacuous :
+    Exec.completionsOf (Exec.run Exec.exCbsC (Exec.chainFn Exec.exChain) ((List.range 60).map Exec.exSigmaC) Exec.exRelsC) 2 = [6, 26] ∧
+    Exec.relTimes Exec.exRelsC 40 (Exec.exChain.headD 0) = [0, 20] ∧
+    ∀ m, m < (Exec.completionsOf (Exec.run Exec.exCbsC (Exec.chainFn Exec.exChain) ((List.range 60).map Exec.exSigmaC) Exec.exRelsC) 2).length →
+      (Exec.completionsOf (Exec.run Exec.exCbsC (Exec.chainFn Exec.exChain) ((List.range 60).map Exec.exSigmaC) Exec.exRelsC) 2).getD m 0 ≤
+        (Exec.relTimes Exec.exRelsC 40 (Exec.exChain.headD 0)).getD m 0 + 6 :=
+  ⟨Exec.chain_exec_sound_nonvacuous.2.2.2.2.2.2.2.2.2.2.2.2.2.2.2.2.2.1,
+   Exec.chain_exec_sound_nonvacuous.2.2.2.2.2.2.2.2.2.2.2.2.2.2.2.2.2.2,
+   fun m hm => Exec.chain_example_bounded m hm⟩
+
+/-- **C04, timer, end to end, ALL EXECUTION TIMES**: the executor transition system
+`RTA/Spec/Ros2ExecX.lean` lets the instance of callback `k` that starts in slot `t` run for
+`ex k t` slots, anywhere between 1 and the callback's WCET (`hex`); everything else as in
+`timer_safe_end_to_end` -/
+theorem timer_safe_all_execution_times (cbs : List Exec.Cb) (ex : ℕ → ℕ → ℕ) (sigma : ℕ → Bool) (rels : ℕ → List ℕ) (H i : ℕ)
+    (hi : i < cbs.length) (hti : (cbs.getD i default).isTimer = true)
+    (hidx : ∀ t, ∀ i ∈ rels t, i < cbs.length) (hfin : ∀ t, H ≤ t → rels t = [])
+    (hex : ∀ k, k < cbs.length → ∀ t, 1 ≤ ex k t ∧ ex k t ≤ (cbs.getD k default).cost)
+    (hdist : ∀ k, k < cbs.length → k ≠ i → (cbs.getD k default).isTimer = true →
+      (cbs.getD k default).prio ≠ (cbs.getD i default).prio)
+    (sup : Supply) (hs : sup.WF) (hsbf : ∀ t d, sup.sbf d ≤ service sigma t d)
+    (arrs : List Arr) (hlen : arrs.length = cbs.length) (hwf : ∀ a ∈ arrs, a.WF ∧ a.Exact)
+    (hrel : ∀ k, k < cbs.length → ∀ t d, Exec.relCount rels k t d ≤ (arrs.getD k default).N d)
+    (B : ℕ)
+    (hB : ∀ k, k < cbs.length → k ≠ i →
+      ¬ ((cbs.getD k default).isTimer = true ∧ (cbs.getD k default).prio < (cbs.getD i default).prio) →
+      (cbs.getD k default).cost ≤ B + 1)
+    (limit R : ℕ)
+    (hR : rosTimer sup (.rbf (arrs.getD i default) (.scalar (cbs.getD i default).cost))
+      (.agg (((List.range cbs.length).filter fun k =>
+          (cbs.getD k default).isTimer && decide ((cbs.getD k default).prio < (cbs.getD i default).prio)).map
+        fun k => .rbf (arrs.getD k default) (.scalar (cbs.getD k default).cost))) B limit = .ok R)
+    (n : ℕ) :
+    ∀ o ∈ ExecX.run cbs ex (fun _ => none) ((List.range n).map sigma) rels, o.1 = i → o.2.2 ≤ o.2.1 + R :=
+  ExecX.timer_exec_sound_x cbs ex sigma rels H i hi hti hidx hfin hex hdist sup hs hsbf arrs hlen hwf hrel B hB limit R hR n
+
+/-- **C04, polling-point callback, end to end, all execution times** -/
+theorem polling_point_safe_all_execution_times (cbs : List Exec.Cb) (ex : ℕ → ℕ → ℕ) (sigma : ℕ → Bool) (rels : ℕ → List ℕ) (H i : ℕ)
+    (hi : i < cbs.length)
+    (hidx : ∀ t, ∀ i ∈ rels t, i < cbs.length) (hfin : ∀ t, H ≤ t → rels t = [])
+    (hex : ∀ k, k < cbs.length → ∀ t, 1 ≤ ex k t ∧ ex k t ≤ (cbs.getD k default).cost)
+    (sup : Supply) (hs : sup.WF) (hsbf : ∀ t d, sup.sbf d ≤ service sigma t d)
+    (arrs : List Arr) (hlen : arrs.length = cbs.length) (hwf : ∀ a ∈ arrs, a.WF ∧ a.Exact)
+    (hrel : ∀ k, k < cbs.length → ∀ t d, Exec.relCount rels k t d ≤ (arrs.getD k default).N d)
+    (limit R : ℕ)
+    (hR : rosPollingPoint sup (.rbf (arrs.getD i default) (.scalar (cbs.getD i default).cost))
+      (.agg (((List.range cbs.length).filter fun k => decide (k ≠ i)).map
+        fun k => .rbf (arrs.getD k default) (.scalar (cbs.getD k default).cost))) limit = .ok R)
+    (n : ℕ) :
+    ∀ o ∈ ExecX.run cbs ex (fun _ => none) ((List.range n).map sigma) rels, o.1 = i → o.2.2 ≤ o.2.1 + R :=
+  ExecX.pollingPoint_exec_sound_x cbs ex sigma rels H i hi hidx hfin hex sup hs hsbf arrs hlen hwf hrel limit R hR n
+
+/-- the transition system with every instance at its WCET is the special case -/
+theorem wcet_runs_are_a_special_case (cbs : List Exec.Cb) (chain : ℕ → Option ℕ) (sigma : List Bool)
+    (rels : ℕ → List ℕ) :
+    ExecX.run cbs (fun i _ => (cbs.getD i default).cost) chain sigma rels = Exec.run cbs chain sigma rels :=
+  ExecX.run_wcet cbs chain sigma rels
 
 /-- the claim for the timer analysis phrased over the executor transition system itself
 in terms of the completions reported by `Exec.run` (an earlier phrasing, kept for reference:
